@@ -165,6 +165,13 @@ def run_shard(ctx):
         for pos in sqlgen.IDENT_POSITIONS + ['SELECT t.`{x}` FROM tbl t', 'SELECT `{x}`.a FROM t', 'SELECT a AS `{x}` FROM t', 'SELECT a FROM t AS `{x}`', 'SELECT a.b.`{x}` FROM t']:
             for q in ('`', '"'):
                 base.append(('odd-name', pos.replace('`{x}`', q + x + q)))
+    # every kind of select-list item carrying an alias (and parentheses): leaves with hand-written copy methods included
+    items = ['@v', '@@sysv', '?', '1', "'s'", 'NULL', 'TRUE', '1.5', 'a', 't.a', '*', 'count(*)', 'f(a, @v)', 'CAST(a AS int)', 'a::int', 'CASE WHEN a THEN @v END',
+             'sum(a) OVER (PARTITION BY b)', '(SELECT @v)', 'a + @v', '-a', 'NOT a', 'a BETWEEN @x AND ?', '(1, @v)', 'LAST', 'a IN (@v, ?)', "DATE '2020-01-01'",
+             'INTERVAL 1 day', 'EXISTS (SELECT 1)', 'a IS NULL']
+    for it in items:
+        for form in ('SELECT {x} AS al FROM t', 'SELECT ({x}) AS al FROM t', 'SELECT b, {x} al, c FROM t WHERE {x} = @w', 'SELECT {x} AS `a l`, {x} AS al2 FROM t ORDER BY {x}'):
+            base.append(('aliased-item', form.replace('{x}', it)))
     # statements that every dialect's parser reads with rules of its own (SHOW / SET / USE / transactions ...)
     for frm in ['tbl', 'db.tbl', 'a.b.c', 'tbl FROM db', '`my db`.`t 1`']:
         for what in ['COLUMNS', 'FULL COLUMNS', 'INDEXES', 'TABLES', 'FULL TABLES', 'TABLE STATUS']:
